@@ -9,6 +9,7 @@ if ! git apply "$patch" 2>/tmp/apply.err; then
 fi
 git diff --stat | tail -3
 cd /verif
+export VERIF_EVIDENCE_DIR=/tmp/verif-evidence-mutants   # evidence/ holds records of the unchanged tree only
 for p in "$@"; do ./check "$p" 2>&1 | grep -E "^(VIOLATION|KNOWN|C[0-9]+ quick|BROKEN)" | cut -c1-300; done
 git -C /repo checkout -- .
 /venv/bin/python /verif/harness/gen.py >/dev/null 2>&1
